@@ -140,7 +140,7 @@ Proof.
 Qed.
 
 Section Parser.
-Context (fnof : bytes -> outcome bytes).
+Context (fnof : bytes -> outcome bytes) (legacy : bool).
 Hypothesis fnof_np : forall name, np (fnof name).
 
 Lemma attachment_embed_np : forall c cd h b drained st,
@@ -168,7 +168,7 @@ Proof.
 Qed.
 
 Lemma part_step_np : forall sub p st,
-  (forall s, np (sub s)) -> np (part_step fnof sub p st).
+  (forall s, np (sub s)) -> np (part_step fnof legacy sub p st).
 Proof.
   intros sub p st Hsub. unfold part_step.
   apply np_bind.
@@ -188,7 +188,8 @@ Proof.
       destruct (go_index_ok _ (c0 :: cts) 0) as [x Hx]; [unfold ilen; cbn [length]; lia|].
       rewrite Hx. cbn [bind].
       destruct (pmh_ok x) as [[contentType optional] Hph]. rewrite Hph. cbn [bind].
-      destruct (eqfold contentType type_multipart_related); auto with eml.
+      destruct (eqfold contentType type_multipart_related
+                || negb legacy && eqfold contentType type_multipart_alternative)%bool; auto with eml.
       set (ctes := match hvals (e_hdr p) hdr_content_transfer_enc with [] => [enc_qp] | _ :: _ => _ end).
       assert (Hc : 0 <= 0 < ilen ctes).
       { subst ctes. destruct (hvals (e_hdr p) hdr_content_transfer_enc); unfold ilen; cbn [length]; lia. }
@@ -218,7 +219,7 @@ Fixpoint entity_ind' (P : entity -> Prop)
             end) parts)
   end.
 
-Lemma parse_body_parts_np : forall e st, np (parse_body_parts fnof e st).
+Lemma parse_body_parts_np : forall e st, np (parse_body_parts fnof legacy e st).
 Proof.
   induction e as [h mt b parts end_ok IH] using entity_ind'; intros st.
   assert (Hgo : forall mediatype charset hb,
@@ -228,7 +229,7 @@ Proof.
         else if (eqfold mediatype type_multipart_alternative || eqfold mediatype type_multipart_mixed
                  || eqfold mediatype type_multipart_related)%bool
              then if negb hb then Err
-                  else run_parts (map (fun p => part_step fnof (parse_body_parts fnof p) p) parts) end_ok st1
+                  else run_parts (map (fun p => part_step fnof legacy (parse_body_parts fnof legacy p) p) parts) end_ok st1
              else Err)).
   { intros mediatype charset hb. cbv zeta.
     destruct (eqfold mediatype type_text_plain || eqfold mediatype type_text_html)%bool;
@@ -244,16 +245,16 @@ Proof.
   - exact (Hgo m c hb).
 Qed.
 
-Lemma parse_headers_np : forall h a d st, np (parse_headers h a d st).
+Lemma parse_headers_np : forall h a d st, np (parse_headers legacy h a d st).
 Proof.
   intros. unfold parse_headers. apply np_bind.
   - unfold parse_ct_charset. destruct (is_empty (hget h hdr_content_type)); auto with eml.
     destruct (pmh_ok (hget h hdr_content_type)) as [[ct opt] Hp]. rewrite Hp. cbn [bind].
-    destruct (negb (is_empty ct) && negb (eqfold ct type_multipart_mixed))%bool; auto with eml.
+    destruct (legacy && negb (is_empty ct) && negb (eqfold ct type_multipart_mixed))%bool; auto with eml.
   - intros st2 _. destruct (negb a); auto with eml. destruct (negb d); auto with eml.
 Qed.
 
-Lemma parse_eml_np : forall t, np (parse_eml fnof t).
+Lemma parse_eml_np : forall t, np (parse_eml fnof legacy t).
 Proof.
   intros t. unfold parse_eml. destruct (negb (t_msg_ok t)); auto with eml.
   apply np_bind; [apply parse_headers_np|]. intros st _. apply parse_body_parts_np.
